@@ -30,11 +30,11 @@ type E2EParams struct {
 	Alloc     int    `json:"alloc"` // 0 never, 1 sometimes, 2 always: UE IP allocation by the agent
 	EndMarker int    `json:"endMarker"`
 	PoolLens  []int  `json:"poolLens"`
-	Shapes    int    `json:"shapes"`    // C09: number of QER-list shapes to run (enumeration starts at ShapeFrom, stride ShapeStep)
+	Shapes    int    `json:"shapes"` // C09: number of QER-list shapes to run (enumeration starts at ShapeFrom, stride ShapeStep)
 	ShapeFrom int    `json:"shapeFrom"`
 	ShapeStep int    `json:"shapeStep"`
-	Notify    bool   `json:"notify"`    // C03: configure the BESS notify socket; some restarts find it missing
-	Snap      bool   `json:"snap"`      // attach the guarded state snapshot to every step
+	Notify    bool   `json:"notify"` // C03: configure the BESS notify socket; some restarts find it missing
+	Snap      bool   `json:"snap"`   // attach the guarded state snapshot to every step
 	QosMode   int    `json:"qosMode"`
 	FarBias   bool   `json:"farBias"`   // C14: most modifications are FAR updates
 	HoldFarMs int    `json:"holdFarMs"` // C14: delay of farLookup add while a modification with SNDEM is processed // 1: always configure per-QFI bursts with distinct cbs / pbs / ebs
@@ -239,7 +239,7 @@ func e2eRandWorker(args []string) error {
 	if w != nil {
 		sum.Lines += w.Lines
 		sum.Steps += w.Steps
-			sum.Accepted += w.Accepted
+		sum.Accepted += w.Accepted
 		w.Close()
 	}
 
